@@ -58,3 +58,21 @@ class hash_consistent:
     result = T.Bool
     options = dict(no_concrete=True)
     props = ["C09"]
+
+
+MDF = "maze_dataset/dataset/maze_dataset.py"
+_SOLVED = T.RecT("SolvedMaze", connection_list=CONN, start_pos=T.Coord, end_pos=T.Coord, solution=T.GridT("int", [None, 2]))
+_DSV = T.RecT("MazeDataset", cfg=T.ObjT("cfg"), mazes=T.ListT(_SOLVED))
+
+
+@contract(MDF, "MazeDataset.__eq__")
+class dataset_eq:
+    """C09: `datasets compare equal exactly when configurations and maze lists are equal` - equal configurations (whatever the configuration's own ==
+    says: opaque) and maze lists of the same length that are pairwise equal mazes"""
+    params = dict(self=_DSV, other=_DSV)
+    ensures = {
+        "C09.dataset-eq": "result == ((self.cfg == other.cfg) and len(self.mazes) == len(other.mazes)"
+        " and forall(lambda k: maze_equal(self.mazes[k], other.mazes[k]), (0, len(self.mazes))))",
+    }
+    options = dict(no_concrete=True)
+    props = ["C09"]
